@@ -281,8 +281,11 @@ Inductive ev :=
 | EBanPerm (a : N)                       (* operator BanIP(a, 0): permanent *)
 | ETempLapse (a : N)                     (* the period of a temporary ban on a is over (a permanent ban has no period) *)
 | EBlackW (a : N) | EUnblackW (a : N)    (* blacklist add / remove of the wider range covering a *)
-| EBlackLapse (a : N) (key : N).         (* a short-lived blacklist entry is put on the exact (0) / range (1) / wider range (2) key of a,
-                                            replacing what was there, and runs out: that key no longer holds an in-force entry *)                   (* the asynchronous unbanIfExpired(a) spawned by IsBanned runs: it deletes only a record that
+| EBlackLapse (a : N) (key : N)         (* a short-lived blacklist entry is put on the exact (0) / range (1) / wider range (2) key of a,
+                                            replacing what was there, and runs out: that key no longer holds an in-force entry *)
+| ECleanup (a : N).                      (* time passes — short of the end of any ban in force on a — and the periodic BruteForceProtector.cleanup
+                                            runs: it deletes only records whose OWN deadline (ExpiresAt) has passed, never a ban in force,
+                                            whatever its length relative to the configured BanDuration *)                   (* the asynchronous unbanIfExpired(a) spawned by IsBanned runs: it deletes only a record that
                                             is (still) expired under the lock, i.e. never a ban in force *)
 
 (* what survives a restart of the server process: everything the code keeps in storage — client configs (and the id /
@@ -336,6 +339,7 @@ Definition step (v : variant) (s : srv) (e : ev) : srv * out :=
   | EBanLapse a => (if v_ban_monotone v then s
                     else set_permb (set_banned s (upd (banned s) a false)) (upd (permb s) a false), no_out)
   | EUnbanLands _ => (s, no_out)
+  | ECleanup _ => (s, no_out)
   | EWhite a c => (set_white s (upd (white s) (if c then k_cidr a else k_ip a) true), no_out)
   | EUnwhite a c => (set_white s (upd (white s) (if c then k_cidr a else k_ip a) false), no_out)
   end.
